@@ -294,6 +294,19 @@ class Exec(EvalMixin, CallMixin):
                 self.ghost_sites_hit.add("abstract:" + hit[0])
                 tgts = node.targets if isinstance(node, ast.Assign) else [node.target]
                 for t in tgts:
+                    if isinstance(t, (ast.Subscript, ast.Attribute)):
+                        # a store into a container / field: an arbitrary value (of the kind the sidecar gives for the
+                        # pseudo-local `<stmt prefix>`), stored by the ordinary assignment rule (frame checked as usual)
+                        k_ = self.decl_kinds.get(hit[0].strip(), ANY)
+                        t_ = fresh("abs_store", V)
+                        tmp = "_abs_store_%d" % node.lineno
+                        st.env[tmp] = SV(t_, k_)
+                        assume_typed(st, t_, k_)
+                        syn = ast.copy_location(ast.Assign(targets=[t], value=ast.copy_location(ast.Name(id=tmp, ctx=ast.Load()), node)), node)
+                        ast.fix_missing_locations(syn)
+                        if len(tgts) != 1:
+                            raise OutOfSubset("abstracted store with several targets")
+                        return self.st_Assign(syn, st)
                     for nm in [n for n in ast.walk(t) if isinstance(n, ast.Name)]:
                         k_ = self.decl_kinds.get(nm.id, ANY)
                         t_ = fresh("abs_" + nm.id, V)
@@ -303,7 +316,28 @@ class Exec(EvalMixin, CallMixin):
         m = getattr(self, "st_" + type(node).__name__, None)
         if m is None:
             raise OutOfSubset("statement %s at line %s" % (type(node).__name__, node.lineno))
-        res = m(node, st)
+        ga0 = self.con.get("ghost_after")
+        if ga0 and isinstance(node, ast.Expr) and isinstance(node.value, ast.Call) and not node.value.keywords \
+                and "_arg" in (ga0.get(ast.unparse(node)) or ""):
+            # ghost code that names the call's argument values (_arg0, _arg1, ...): the arguments are evaluated into
+            # temporaries first, left to right, then the call is made on the temporaries (same evaluation order as Python:
+            # the receiver expression here is a plain attribute path)
+            call = node.value
+            names = []
+            for i_, a_ in enumerate(call.args):
+                nm_ = "_arg%d" % i_
+                asg = ast.fix_missing_locations(ast.copy_location(
+                    ast.Assign(targets=[ast.Name(id=nm_, ctx=ast.Store())], value=a_), node))
+                r_ = self.st_Assign(asg, st)
+                if len(r_) != 1 or r_[0][1] != "next":
+                    raise OutOfSubset("argument of an anchored call may raise (line %s)" % node.lineno)
+                st = r_[0][0]
+                names.append(ast.copy_location(ast.Name(id=nm_, ctx=ast.Load()), a_))
+            node2 = ast.fix_missing_locations(ast.copy_location(ast.Expr(value=ast.copy_location(
+                ast.Call(func=call.func, args=names, keywords=[]), call)), node))
+            res = m(node2, st)
+        else:
+            res = m(node, st)
         ga = self.con.get("ghost_after")
         if ga and not isinstance(node, (ast.For, ast.While)):
             # anchor: the statement's source text; an `if` statement is anchored by "if <test>" (ghost code then runs
